@@ -2,6 +2,7 @@
 // ECPBasis::addECP_from_file and dumps the resulting ECP object.
 // usage: drv_ecplib <share_dir> <list: "set q"> <radii: comma list> <out>
 #include "vh.hpp"
+#include <map>
 using namespace vh;
 int main(int argc, char** argv) {
   if (argc < 5) return 2;
@@ -10,10 +11,13 @@ int main(int argc, char** argv) {
   initFactorials();
   std::string set; int q;
   ECPBasis shared; long nshared = 0, shared_bad = 0;   // one long-lived basis receiving every (set, element) in turn
+  std::map<std::string, std::vector<int>> bysets; std::map<std::pair<std::string, int>, int> coreref; std::vector<std::string> setorder;
   while (in >> set >> q) {
     ECPBasis b; std::array<double,3> c = {0.1, -0.2, 0.3};
     b.addECP_from_file(q, c, share + "/xml/" + set + ".xml");
     ECP& U = b.getECP(0);
+    if (!bysets.count(set)) setorder.push_back(set);
+    bysets[set].push_back(q); coreref[{set, q}] = b.getECPCore(q);
     std::fprintf(f, "case %s:%s\n", set.c_str(), atom_names[q-1].c_str());
     put_int(f, "N", U.getN()); put_int(f, "L", U.getL()); put_int(f, "core", b.getECPCore(q)); put_int(f, "nstored", (long)U.gaussians.size());
     put_int(f, "basisN", b.getN()); put_int(f, "basisMaxL", b.getMaxL());
@@ -39,6 +43,27 @@ int main(int argc, char** argv) {
     }
     if (!same) { shared_bad++; std::printf("SHAREDMISMATCH %s:%s loaded as entry %ld of a basis that already held other elements/sets differs from the same load into a fresh basis\n", set.c_str(), atom_names[q-1].c_str(), nshared); }
   }
-  std::printf("SHARED loads=%ld mismatches=%ld\n", nshared, shared_bad);
+  // the elements of each set loaded into ONE basis in other orders (heaviest first; from the middle outwards): after every addition the core
+  // count of every element loaded so far must be the one a fresh basis reports
+  long norder = 0;
+  for (auto& sname : setorder) {
+    std::vector<int> asc = bysets[sname];
+    std::vector<std::vector<int>> orders;
+    orders.push_back(std::vector<int>(asc.rbegin(), asc.rend()));
+    { std::vector<int> mid; int n = (int)asc.size(); for (int k = 0; k < n; k++) { int i = n / 2 + ((k % 2) ? (k + 1) / 2 : -(k / 2)); if (i >= 0 && i < n) mid.push_back(asc[i]); } orders.push_back(mid); }
+    for (auto& ord : orders) {
+      ECPBasis d; std::array<double,3> c = {0.1, -0.2, 0.3}; std::vector<int> sofar;
+      for (int qq : ord) {
+        d.addECP_from_file(qq, c, share + "/xml/" + sname + ".xml"); sofar.push_back(qq); norder++;
+        for (int r : sofar) if (d.getECPCore(r) != coreref[{sname, r}]) {
+          shared_bad++;
+          std::printf("SHAREDMISMATCH %s:%s getECPCore = %d after loading %s first (a fresh basis reports %d)\n", sname.c_str(), atom_names[r-1].c_str(), d.getECPCore(r), atom_names[ord[0]-1].c_str(), coreref[{sname, r}]);
+          goto next_order;
+        }
+      }
+      next_order: ;
+    }
+  }
+  std::printf("SHARED loads=%ld other_order_loads=%ld mismatches=%ld\n", nshared, norder, shared_bad);
   std::fclose(f); return 0;
 }
